@@ -225,12 +225,12 @@ CHECKS = {
         'level': 'exploration',
         'jobs': [
             {'type': 'custom', 'name': 'lock-order', 'fn': lock_static, 'want': 'order'},
-            {'type': 'custom', 'name': 'race', 'fn': race_job, 'tests': ['TestConcurrent', 'TestSub', 'TestRaw'], 'n': {'quick': 8, 'thorough': 60}},
+            {'type': 'custom', 'name': 'race', 'fn': race_job, 'tests': ['TestConcurrent', 'TestConcStorm', 'TestSub', 'TestRaw'], 'n': {'quick': 8, 'thorough': 60}},
             C('sub', 'TestSub', 'TraceSub', n={'quick': 40, 'thorough': 600}),
         ],
         'rule': 'race: the concurrent hammer (10 patterns x inproc and, shared among them, tcp / tls+tcp / ipc / ws; 2 senders, 2 receivers, option, context and '
                 'endpoint-churn goroutines per socket, hook-driven pipe closes, Close while running) plus the bubble drivers, all under the race detector; '
-                'one case per (pattern, transport); lock order: one case per function with lock activity',
+                'one case per (pattern, transport); cancellation storms (SURVEYOR and REQ contexts re-sending without waiting against 8 echoing peers, millisecond timers, context churn, Close in flight); lock order: one case per function with lock activity',
         'not_exhaustive': True,
         'assumptions': ASSUME_COMMON + ['the Go race detector reports only real races; schedule coverage of the Go runtime is probabilistic'],
     },
@@ -276,6 +276,7 @@ CHECKS = {
             T('MC_Wire', 'Wire.cfg', workers=4),
             C('wire', 'TestWire', 'TraceWire', n={'quick': 60, 'thorough': 800}, trivial_len=3),
             C('wirestall', 'TestWireStall', 'TraceWire', trivial_len=0),
+            C('handshaker', 'TestHandshaker', 'TraceHandshaker', trivial_len=3, n={'quick': 40, 'thorough': 600}),
             C('wirereal', 'TestWireReal', 'TraceWire', trivial_len=3),
             R('xreq', 'xreq'), R('xsurveyor', 'xsurveyor'), R('xpair1', 'xpair1'), R('xstar', 'xstar'), R('xbus', 'xbus'),
             R('xrep', 'xrep', tiers=('thorough',)), R('xrespondent', 'xrespondent', tiers=('thorough',)),
@@ -452,6 +453,8 @@ CHECKS = {
             C('sub', 'TestSub', 'TraceSub', n={'quick': 30, 'thorough': 400}, env={'VERIF_MIX': 'close'}),
             C('surveyor', 'TestSurveyor', 'TraceSurveyor', n={'quick': 30, 'thorough': 400}, env={'VERIF_MIX': 'close'}),
             C('closereal', 'TestCloseReal', 'TraceLifecycle', trivial_len=3),
+            T('MC_Handshaker', 'Handshaker.cfg', workers=4),
+            C('handshaker', 'TestHandshaker', 'TraceHandshaker', trivial_len=3, n={'quick': 40, 'thorough': 600}),
         ] + [dict(R(p, e), env={'VERIF_RAW_PROTOS': p, 'VERIF_MIX': 'close'}, n={'quick': 15, 'thorough': 300},
                   tiers=('quick', 'thorough') if q else ('thorough',))
              for p, e, q in [('xpair', 'xpair', 1), ('xpair1', 'xpair1', 0), ('xreq', 'xreq', 1), ('xpush', 'xpush', 1), ('xpull', 'xpull', 1),
